@@ -404,9 +404,17 @@ def rule_b_comp(ctx):
     for adt, name, b in composite_methods(ctx):
         sides = _sides_touched(ctx, b)
         if name not in ("next", "size_hint", "clone", "iter", "len", "drive_unindexed", "fold"):
-            # any other method that consumes the sides itself (a hand-written fold, for_each, nth, ..) must visit them in the order next() does
             if ro.composites[adt]["family"] in ("iter", "into", "drain") and sides:
-                _check_visit_order(ctx, R, adt, b, "%s:%s" % (b.path, name))
+                k_ = "%s:%s" % (b.path, name)
+                det = {}
+                if _takes_callback(ctx, b):
+                    # a method that hands the elements to a caller's function itself (for_each, try_fold, ..) visits the sides in next()'s order
+                    det = _check_visit_order(ctx, R, adt, b, k_)
+                elif name == "last":
+                    det = _exact_last(ctx, R, adt, b, k_)
+                elif name == "count":
+                    det = _exact_count(ctx, R, adt, b, k_)
+                R.inst(fn=b.path, adt=adt, method=name, sides=sorted(sides), verdict="ok" if not [v for v in R.violations if v.key.startswith(k_ + ":")] else "VIOLATION", **det)
             continue
         n += 1
         key = "%s:%s" % (b.path, name)
@@ -425,9 +433,122 @@ def rule_b_comp(ctx):
             detail = _check_byref_next(ctx, R, adt, b, key)
         if name == "fold" and ro.composites[adt]["family"] in ("iter", "into", "drain"):
             detail = _check_visit_order(ctx, R, adt, b, key)
+        if [v for v in R.violations if v.key.startswith(key + ":")]:
+            verdict = "VIOLATION"
         R.inst(fn=b.path, adt=adt, method=name, sides=sorted(sides), verdict=verdict, **detail)
     R.floor(6, "composite-iterator methods")
     return R
+
+
+def _takes_callback(ctx, b):
+    T = ctx.facts.types
+    for l in range(2, b.arg_count + 1):
+        t = T[b.locals[l]["ty"]]
+        if t.get("k") in ("param", "closure", "fnptr", "fndef"):
+            return True
+    return False
+
+
+def _side_polls(ctx, b, methods):
+    """calls of one of `methods` on a side of the composite, in b or its closures: ({(body path, bb): side}, list of calls)"""
+    out, calls = {}, []
+    for bd in [b] + ctx.facts.closures_of(b):
+        for c in ctx.calls(bd):
+            if bd.is_cleanup(c.loc.bb) or c.method not in methods or not c.args or c.args[0]["k"] not in ("copy", "move"):
+                continue
+            side = _side_of_receiver(ctx, bd, c)
+            if side in ("IT_MAIN", "IT_OLD"):
+                out[(bd.path, c.loc.bb)] = side
+                calls.append(c)
+    return out, calls
+
+
+def _exact_last(ctx, R, adt, b, key):
+    """last() of a composite iterator, decided exactly: it is the last element of next()'s sequence — the second-visited side's last element
+    when that side is present and has one, else the first-visited side's."""
+    from hintexec import HintExec, Inconclusive, UNK, NONE
+    from rules_typestate import N as N__
+    fam = ctx.roles.composites[adt]["family"]
+    second, first = ("O", "M") if fam == "iter" else ("M", "O")
+    polls, calls = _side_polls(ctx, b, ("last",))
+    if not polls:
+        return {"last": "not decided (no last() on a side)"}
+    mv = {k: ("opt", "ML") for k, sd in polls.items() if sd == "IT_MAIN"}
+    ov = {k: ("opt", "OL") for k, sd in polls.items() if sd == "IT_OLD"}
+    try:
+        hx = HintExec(ctx, b, [], [], _old_field_edges(ctx, b), main_vals=mv, old_vals=ov)
+        results = hx.run()
+    except (Inconclusive, RecursionError, KeyError, IndexError, TypeError):
+        return {"last": "not decided (outside the evaluated class)"}
+    names = {"ML": "the main side's last()", "OL": "the old side's last()"}
+
+    def value_of(X, a):
+        st = a.get(X)
+        return ("val", X) if st == "some" else NONE if st == "none" else ("opt", X)
+
+    def show(v):
+        if v == NONE:
+            return "None"
+        if isinstance(v, tuple) and v and v[0] in ("val", "opt"):
+            return names.get(v[1], str(v[1]))
+        return "something else"
+    bad = False
+    for val, polled, crossed, path, a in results:
+        if val == UNK or not (val == NONE or (isinstance(val, tuple) and val and val[0] in ("val", "opt"))):
+            return {"last": "not decided (outside the evaluated class)"}
+    for val, polled, crossed, path, a in results:
+        absent = N__ in crossed
+        S2, S1 = second + "L", first + "L"
+        if absent:
+            expect = value_of("ML", a)
+        elif second == "O":
+            expect = ("val", "OL") if a.get("OL") == "some" else value_of("ML", a) if a.get("OL") == "none" else None
+        else:
+            expect = ("val", "ML") if a.get("ML") == "some" else value_of("OL", a) if a.get("ML") == "none" else None
+        trail = " -> ".join("bb%d" % x for x in path)
+        if expect is None:
+            what = "returns %s without having looked at whether %s yields anything" % (show(val), names[S2])
+        elif val != expect:
+            what = "returns %s where the last element of next()'s sequence is %s" % (show(val), show(expect))
+        else:
+            continue
+        if not bad:
+            bad = True
+            cond = ", ".join("%s is %s" % (names[k_], "Some" if v_ == "some" else "None") for k_, v_ in sorted(a.items())) or "no assumption"
+            R.viol(key + ":last", b.where(Loc(path[-1], 0)), "%s %s (old side %s; %s; path %s)" % (b.path, what, "absent" if absent else "present or untested", cond, trail))
+    return {"last": "VIOLATION" if bad else "decided exactly, over %d paths" % len(results)}
+
+
+def _exact_count(ctx, R, adt, b, key):
+    """count() of a composite iterator: the sum of both sides' counts (the main side's alone with the old side absent), or a delegation
+    to the composite's own len() / size_hint()"""
+    from hintexec import HintExec, Inconclusive, UNK
+    from rules_typestate import N as N__
+    cs = [c for c in ctx.calls(b) if not b.is_cleanup(c.loc.bb)]
+    own = [c for c in cs if c.method in ("len", "size_hint", "count") and c.arg_path(0) is not None and c.arg_path(0).strip_refs().root == 1
+           and not c.arg_path(0).fields()]
+    if len(cs) == 1 and own and own[0].dest is not None and own[0].dest["local"] in b.ret_locals() and own[0].method == "len":
+        return {"count": "delegates to the composite's own len() (I-sum)"}
+    polls, calls = _side_polls(ctx, b, ("count", "len"))
+    if not polls:
+        return {"count": "not decided (no count() on a side)"}
+    mv = {k: ("sum", ("M0",)) for k, sd in polls.items() if sd == "IT_MAIN"}
+    ov = {k: ("sum", ("O0",)) for k, sd in polls.items() if sd == "IT_OLD"}
+    try:
+        results = HintExec(ctx, b, [], [], _old_field_edges(ctx, b), main_vals=mv, old_vals=ov).run()
+    except (Inconclusive, RecursionError, KeyError, IndexError, TypeError):
+        return {"count": "not decided (outside the evaluated class)"}
+    if any(not (isinstance(v, tuple) and v and v[0] == "sum") for v, _, _, _, _ in results):
+        return {"count": "not decided (outside the evaluated class)"}
+    bad = False
+    for val, polled, crossed, path, a in results:
+        expect = ("sum", ("M0",)) if N__ in crossed else ("sum", ("M0", "O0"))
+        if val != expect and not bad:
+            bad = True
+            R.viol(key + ":count", b.where(Loc(path[-1], 0)), "%s returns %s on a path (%s) with the old side %s: not the number of elements next() would yield"
+                   % (b.path, " + ".join({"M0": "main.count", "O0": "old.count"}[x] for x in val[1]) or "0", " -> ".join("bb%d" % x for x in path),
+                      "absent" if N__ in crossed else "present"))
+    return {"count": "VIOLATION" if bad else "decided exactly, over %d paths" % len(results)}
 
 
 NON_CONSUMING = {"size_hint", "len", "clone", "iter", "as_ref", "as_mut", "is_some", "is_none", "is_empty", "fmt", "deref", "deref_mut", "borrow", "borrow_mut"}
@@ -637,7 +758,7 @@ def _exact_size_hint(ctx, R, adt, b, key, main_sh, old_sh, helper_args=None):
         return None
     want = {0: ("sum", ("M0", "O0")), 1: ("sum", ("M1", "O1"))}
     alone = {0: ("sum", ("M0",)), 1: ("sum", ("M1",))}
-    for val, polled, crossed, path in results:
+    for val, polled, crossed, path, _a in results:
         if not (isinstance(val, tuple) and val and val[0] == "tuple" and len(val[1]) == 2) or any(x == UNK or not (isinstance(x, tuple) and x[0] == "sum") for x in val[1]):
             return None
     res = {"decided": "exactly, over %d paths" % len(results)}
@@ -646,7 +767,7 @@ def _exact_size_hint(ctx, R, adt, b, key, main_sh, old_sh, helper_args=None):
 
     def show(x):
         return " + ".join({"M0": "main.lower", "M1": "main.upper", "O0": "old.lower", "O1": "old.upper"}[a] for a in x[1]) or "0"
-    for val, polled, crossed, path in results:
+    for val, polled, crossed, path, _a in results:
         c0, c1 = val[1]
         where = b.where(Loc(path[-1], 0))
         trail = " -> ".join("bb%d" % x for x in path)
@@ -670,7 +791,7 @@ def _exact_size_hint(ctx, R, adt, b, key, main_sh, old_sh, helper_args=None):
                     bad.add(("a", i))
                     R.viol(key + ":component%d:absent" % i, where, "with the old side absent, component %d of %s's size_hint is %s, not the main side's own (%s)"
                            % (i, adt, show(c), trail))
-    if any(p and N__ not in cr for _, p, cr, _ in results) and not upper_added and 1 not in bad:
+    if any(p and N__ not in cr for _, p, cr, _, _a in results) and not upper_added and 1 not in bad:
         bad.add(1)
         R.viol(key + ":component1", b.where(Loc(0, 0)), "no path of %s's size_hint adds the old side's upper bound to the main side's" % adt)
     res["component0"] = "NOT-SUM" if 0 in bad else "main+old"
